@@ -700,6 +700,28 @@ func (rw *regWorld) apply(op string, judge bool) (viol []string, digest string, 
 		}
 		exp = append(exp, e)
 		pe.Deliver(d)
+	case "lrepl":
+		// the application removes the local entity [n] and adds a new entity object with the same address and the same
+		// features (a vehicle is unplugged, another one plugged in). The features of the old entity are gone, and with
+		// them what was subscribed or bound to them: the new features start without subscribers and without binding.
+		addr := []uint{uint(atoi(f[1]))}
+		if old := w.L.Entity(spine.NewAddressEntityType(addr)); old != nil {
+			w.L.RemoveEntity(old)
+		}
+		stdLocalEntity(w, addr)
+		onEnt := func(e regEntry) bool { return fmt.Sprint(serverVars[e.s].ent) == fmt.Sprint(addr) }
+		var n int
+		m.subs, n = dropWhere(m.subs, onEnt)
+		expEv[fmt.Sprint(api.EventTypeSubscriptionChange, api.ElementChangeRemove)] += n
+		m.binds, n = dropWhere(m.binds, onEnt)
+		expEv[fmt.Sprint(api.EventTypeBindingChange, api.ElementChangeRemove)] += n
+		for _, sv := range rw.servers {
+			if fmt.Sprint(serverVars[sv].ent) == fmt.Sprint(addr) {
+				rw.local(sv).SetData(fnLimit, limitList(1, 1, 2))
+				m.data[sv] = 1
+			}
+		}
+		effect = true
 	case "uc":
 		// the use case data of the local node management feature (special role, subscribed by every real peer)
 		// changes: a use case of entity [1] is added, or its availability is set
